@@ -32,7 +32,9 @@ def bound_lemmas(tier='quick'):
 
 s = SendUnit(keep=skeep('C04.'))
 s.mutants = SEND_MUTANTS['C04']
-SQ = [Shape(('all',), (0,), False), Shape(('all', 'all'), (0, 0), False), Shape(('all',), (0,), True)]
-r = RecvUnit({'C04'}, SQ, SQ + [Shape(('all', 'explicit'), (0, 1), False)], keep=keep_for('C04.'))
+SQ = [Shape(('all',), (0,), False), Shape(('all', 'all'), (0, 0), False), Shape(('all',), (0,), True),
+      Shape(('all', 'all'), (1, 0), False)]       # an ephemeral source listed BEFORE a synchronized one: the synchronized request must not call itself ephemeral
+# C05.eph_flag is kept here too: a synchronized consumer that announces itself as ephemeral is no longer waited for by the producer (the flow control of C04 is gone)
+r = RecvUnit({'C04', 'C05'}, SQ, SQ + [Shape(('all', 'explicit'), (0, 1), False), Shape(('all', 'all', 'all'), (1, 0, 2), False)], keep=keep_for('C04.', 'C05.eph_flag'))
 from .sendwhole import SendMaybeContract
 UNITS = [s, r, LemmaUnit('C04.bound lemma', bound_lemmas), SendMaybeContract()]
